@@ -404,7 +404,7 @@ func seqProfile0(prop, tier string) *SeqProfile {
 					Note: "negative control: the model with " + c + " switched off (the code before the repair / the open finding without its exemption) must violate Crash1 or Crash2"})
 			}
 		}
-		return &SeqProfile{Prop: prop, Gen: g, Design: design, NRandom: tierN(tier, 40, 600), Module: "TraceCrash.tla", Cfg: "TraceCrash.cfg",
+		return &SeqProfile{Prop: prop, Gen: g, Design: design, NRandom: tierN(tier, 40, 300), Module: "TraceCrash.tla", Cfg: "TraceCrash.cfg",
 			Hist: func(id int, seed int64) *History {
 				if id%8 == 7 {
 					return genMigrateHistory(id, seed)
